@@ -670,6 +670,13 @@ typedef struct
 	octet alg_state[];			/*< [MAX(beltHash_keep(), brngCTR_keep())] */
 } rng_state_st;
 
+#if defined(BEE2_VERIF) && defined(BEE2_VERIF_YIELD)
+extern void (*bee2_verif_yield)(int);
+#define VERIF_YIELD(n) do { if (bee2_verif_yield) bee2_verif_yield(n); } while (0)
+#else
+#define VERIF_YIELD(n) ((void)0)
+#endif
+
 static size_t _once;			/*< триггер однократности */
 static mt_mtx_t _mtx[1];		/*< мьютекс */
 static bool_t _inited;			/*< мьютекс создан? */
@@ -703,6 +710,7 @@ static void rngInit()
 		mtMtxClose(_mtx);
 		return;
 	}
+	VERIF_YIELD(2);
 	_inited = TRUE;
 }
 
@@ -714,6 +722,7 @@ err_t rngCreate(read_i source, void* source_state)
 	if (!mtCallOnce(&_once, rngInit) || !_inited)
 		return ERR_FILE_CREATE;
 	// заблокировать мьютекс
+	VERIF_YIELD(11);
 	mtMtxLock(_mtx);
 	// состояние уже создано?
 	if (_ctr)
@@ -773,6 +782,7 @@ bool_t rngIsValid()
 	bool_t b;
 	if (!_inited)
 		return FALSE;
+	VERIF_YIELD(12);
 	mtMtxLock(_mtx);
 	b = rngIsValid_internal();
 	mtMtxUnlock(_mtx);
@@ -782,6 +792,7 @@ bool_t rngIsValid()
 void rngClose()
 {
 	ASSERT(_inited);
+	VERIF_YIELD(13);
 	mtMtxLock(_mtx);
 	ASSERT(rngIsValid_internal());
 	if (--_ctr == 0)
@@ -808,6 +819,7 @@ mtSleep(0).
 void rngStepR2(void* buf, size_t count, void* state)
 {
 	ASSERT(_inited);
+	VERIF_YIELD(14);
 	mtMtxLock(_mtx);
 	ASSERT(rngIsValid_internal());
 	brngCTRStepR(buf, count, _state->alg_state);
@@ -820,6 +832,7 @@ void rngStepR(void* buf, size_t count, void* state)
 	size_t read, r, pos;
 	// блокировать мьютекс
 	ASSERT(_inited);
+	VERIF_YIELD(15);
 	mtMtxLock(_mtx);
 	// опросить источники
 	read = pos = 0;
@@ -842,6 +855,7 @@ void rngRekey()
 {
 	// блокировать мьютекс
 	ASSERT(_inited);
+	VERIF_YIELD(16);
 	mtMtxLock(_mtx);
 	// сгенерировать новый ключ
 	ASSERT(rngIsValid_internal());
